@@ -132,6 +132,14 @@ def KStr.splitAt (s : KStr) (off : Nat) : Option (KStr × KStr) :=
   | .slice => if isBoundary s.buf p ∧ p ≤ u16max then some (⟨s.buf, s.lo, p, .slice⟩, ⟨s.buf, p, s.hi, .slice⟩) else none
   | .large => if isBoundary s.buf p then some (⟨s.buf, s.lo, p, .large⟩, ⟨s.buf, p, s.hi, .large⟩) else none
 
+/-- the public `StringSlice::split(offset)` as a host calls it (any offset): the split point is only tested
+with `is_char_boundary` on the shared buffer, not against the slice's own end, so an offset beyond the end
+yields a first half that reads into the neighbouring text (and a second half with `start > end`:
+undefined behaviour in `as_str`; F-C15-12, Rust API level — `pop_front`/`pop_back` never ask beyond the end).
+`ownEnd = true`: with requests/C15-fix-10.diff applied such an offset is refused. -/
+def KStr.splitAtApi (s : KStr) (off : Nat) (ownEnd : Bool := false) : Option (KStr × KStr) :=
+  if ownEnd ∧ off > s.len then none else s.splitAt off
+
 /-- results of the modelled operations -/
 inductive Res where
   | str (bytes : Bytes)
@@ -527,9 +535,17 @@ def endsWithB (pat bs : Bytes) : Bool := pat.isSuffixOf bs
 
 def repeatB (n : Nat) (bs : Bytes) : Bytes := flat (List.replicate n bs)
 
-/-- `repeat`: negative counts are an error -/
-def repeatOp (s : KStr) (n : Int) : Res :=
-  if n < 0 then .err "negative" else .str (repeatB n.toNat s.bytes)
+def isizeMax : Nat := 9223372036854775807
+
+/-- `repeat`: negative counts are an error. `str::repeat` computes `len * n` with
+`checked_mul(..).expect("capacity overflow")` and allocates that capacity, which panics above `isize::MAX`
+(F-C15-11; sizes below that which merely cannot be allocated are outside the model).
+`checked = true` describes a tree with requests/C15-fix-9.diff applied (a runtime error instead). -/
+def repeatOp (s : KStr) (n : Int) (checked : Bool := false) : Res :=
+  if n < 0 then .err "negative"
+  else if s.len = 0 then .str []
+  else if s.len * n.toNat > isizeMax then (if checked then .err "toolarge" else .panic "capacity overflow")
+  else .str (repeatB n.toNat s.bytes)
 
 /-- `s.chars().flat_map(|c| c.to_lowercase())` — per character, no context -/
 def lowerB (U : UFacts) (bs : Bytes) : Bytes := flat ((charsOf bs).map U.lower)
@@ -650,8 +666,15 @@ def skipLineWs (U : UFacts) : List Bytes → List Bytes
   | [] => []
   | c :: cs => if U.isWhite c ∧ c ≠ [10] then skipLineWs U cs else c :: cs
 
+/-- which repairs of `escape_string_character` are in the tree: `overflow` = requests/C15-fix-3.diff (the
+`\u{…}` accumulator is checked), `digits` = requests/C15-fix-11.diff (one to six hex digits are required) -/
+structure EscCfg where
+  overflow : Bool := false
+  digits : Bool := false
+  deriving DecidableEq, Repr
+
 /-- one escape sequence, the backslash already consumed: `(pushed bytes, rest)` or an error name -/
-def escapeOne (U : UFacts) (checked : Bool := false) : List Bytes → Except String (Bytes × List Bytes)
+def escapeOne (U : UFacts) (checked : EscCfg := {}) : List Bytes → Except String (Bytes × List Bytes)
   | [] => .error "UnexpectedEscapeInString"
   | c :: cs =>
     match ascii? c with
@@ -687,17 +710,20 @@ def escapeOne (U : UFacts) (checked : Bool := false) : List Bytes → Except Str
              if c1 ≠ [123] then .error "UnexpectedCharInNumericEscapeCode"
              else
                let (code, ovf, rest) := hexRun cs1 0 false
-               if ovf then .error (if checked then "UnicodeEscapeCodeOutOfRange" else "PANIC:overflow")
+               if ovf then .error (if checked.overflow then "UnicodeEscapeCodeOutOfRange" else "PANIC:overflow")
                else match rest with
                  | [] => .error "UnterminatedNumericEscapeCode"
                  | c2 :: cs2 =>
                    if c2 = [125] then
-                     (if isScalar code then .ok (utf8Enc code, cs2) else .error "UnicodeEscapeCodeOutOfRange")
+                     -- current code: any number of digits, none included (`\u{}` is U+0000; F-C15-13)
+                     (if checked.digits ∧ cs1.length - rest.length = 0 then .error "UnexpectedCharInNumericEscapeCode"
+                      else if checked.digits ∧ cs1.length - rest.length > 6 then .error "UnicodeEscapeCodeOutOfRange"
+                      else if isScalar code then .ok (utf8Enc code, cs2) else .error "UnicodeEscapeCodeOutOfRange")
                    else .error "UnexpectedCharInNumericEscapeCode")
         else .error "UnexpectedEscapeInString"
 
 /-- escape processing of one `StringLiteral` token (`process_escape_codes = true`) -/
-def unescapeLoop (U : UFacts) (checked : Bool := false) : Nat → List Bytes → Except String Bytes
+def unescapeLoop (U : UFacts) (checked : EscCfg := {}) : Nat → List Bytes → Except String Bytes
   | 0, _ => .ok []
   | _ + 1, [] => .ok []
   | fuel + 1, c :: cs =>
@@ -713,9 +739,8 @@ def unescapeLoop (U : UFacts) (checked : Bool := false) : Nat → List Bytes →
       | .error e => .error e
       | .ok tail => .ok (c ++ tail)
 
-/-- `checked = true` describes a tree with requests/C15-fix-3.diff applied (overflow of the `\u{…}`
-accumulator is the out-of-range error instead of a panic) -/
-def unescape (U : UFacts) (lit : Bytes) (checked : Bool := false) : Except String Bytes :=
+/-- `checked` says which repairs are in the tree (`EscCfg`) -/
+def unescape (U : UFacts) (lit : Bytes) (checked : EscCfg := {}) : Except String Bytes :=
   unescapeLoop U checked (lit.length + 1) (charsOf lit)
 
 end KotoVerif.Str
